@@ -422,6 +422,7 @@ func genC11(t *rapid.T) *Scenario {
 		sc.T.CancelAt = rapid.IntRange(1, 30).Draw(t, "cancelAt")
 		sc.T.StopAtCancel = rapid.Bool().Draw(t, "stopAtCancel")
 	}
+	sc.Twin = rapid.IntRange(0, 5).Draw(t, "twin") == 0 // an independent second instance on the same virtual clock
 	return sc
 }
 
@@ -462,6 +463,7 @@ func genC13(t *rapid.T) *Scenario {
 	if rapid.IntRange(0, 5).Draw(t, "cancelMid") == 0 {
 		sc.T.CancelAt = rapid.IntRange(1, 40).Draw(t, "cancelAt")
 	}
+	sc.Twin = rapid.IntRange(0, 5).Draw(t, "twin") == 0 // an independent second instance on the same virtual clock
 	return sc
 }
 
